@@ -299,9 +299,11 @@ def fam_subst_random(rng, count, maxn=8, offsets=(0, 2, 4, 5, 6, 10, 11, 12, 13)
 
 
 # ---------------------------------------------------------------- F7: mutator histories of the allocator design model (C09/C10)
-def history_program(hist):
+def history_program(hist, pad=0):
     """hist: list of [action, a, b, c] as printed by spec/MC_Heap.tla (let k moved atEnd | dup i | drop i | switch i).
-    The environment of the linear program mirrors the design model's variable list exactly."""
+    The environment of the linear program mirrors the design model's variable list exactly, after `pad` integer variables
+    that stay at the front for the whole run (they push every model variable - in particular the destination of each let -
+    into higher temporaries: past the register file of x86-64 for pad >= 6 and of AArch64 for pad >= 13)."""
     types = [{"name": "_Cont", "xtors": [{"name": "Ret", "args": [{"id": 0, "name": "x", "chi": "ext", "ty": "i64"}]}]}]
     tnames = {}
 
@@ -313,6 +315,13 @@ def history_program(hist):
                 {"id": 0, "name": "f%d" % j, "chi": "ext" if t == "i64" else "prd", "ty": t} for j, t in enumerate(sig)]}]})
         return tnames[sig]
     b = LB(0, types=types)
+    pads = [b.lit(100 + j, "pad") for j in range(pad)]
+
+    def sub(vs):
+        """substitute keeping the pads in front; -> the new environment behind the pads"""
+        env = b.substitute(pads + vs)
+        pads[:] = env[:len(pads)]
+        return env[len(pads):]
     # model variables: list of dicts {var, sig} in the order of the design model's `vars`
     mv = []
     for act, x, ms, at_end in hist:
@@ -325,8 +334,7 @@ def history_program(hist):
             intvars = [{"var": v, "sig": None} for v in ints]
             fields = (intvars + moved) if at_end else (moved + intvars)
             # bring the environment into the order: rest, then the fields
-            b.substitute([r["var"] for r in rest] + [f["var"] for f in fields])
-            newenv = list(b.env)
+            newenv = sub([r["var"] for r in rest] + [f["var"] for f in fields])
             for r, nv in zip(rest, newenv[:len(rest)]):
                 r["var"] = nv
             sig = tuple("i64" if f["sig"] is None else f["tyname"] for f in fields)
@@ -335,23 +343,23 @@ def history_program(hist):
             mv = rest + [{"var": v, "sig": sig, "tyname": ty, "fields": [dict(f) for f in fields]}]
         elif act == "dup":
             src = mv[x - 1]
-            b.substitute([m["var"] for m in mv] + [src["var"]])
-            for m, nv in zip(mv, b.env):
+            newenv = sub([m["var"] for m in mv] + [src["var"]])
+            for m, nv in zip(mv, newenv):
                 m["var"] = nv
             cp = dict(src)
             cp["var"] = b.env[-1]
             mv = mv + [cp]
         elif act == "drop":
             keep = [m for j, m in enumerate(mv, 1) if j != x]
-            b.substitute([m["var"] for m in keep])
-            for m, nv in zip(keep, b.env):
+            newenv = sub([m["var"] for m in keep])
+            for m, nv in zip(keep, newenv):
                 m["var"] = nv
             mv = keep
         elif act == "switch":
             tgt = mv[x - 1]
             rest = [m for j, m in enumerate(mv, 1) if j != x]
-            b.substitute([m["var"] for m in rest] + [tgt["var"]])
-            for m, nv in zip(rest, b.env):
+            newenv = sub([m["var"] for m in rest] + [tgt["var"]])
+            for m, nv in zip(rest, newenv):
                 m["var"] = nv
             scrut = b.env[-1]
             binders = []
